@@ -229,7 +229,9 @@ struct ValueModel {
     // degenerate models (set by a property, never by decode): 1 constant per output, 2 affine with dyadic slopes, 3 a function of the first coordinate only.
     // Their hierarchical surpluses vanish EXACTLY at many points, which is what decides "coefficient 0 versus tolerance 0" in the refinement rules.
     int degenerate = 0;
+    int k0 = 0;   // output offset: the model of a copy restricted to outputs [k0, ...) of its source
     double operator()(const double *x, int dims, int k, int salt) const {
+        k += k0;
         if (degenerate == 1) return 1.0 + k + 0.5 * salt;
         if (degenerate == 2) { double v = 2.0 + k + 0.5 * salt; for (int j = 0; j < dims; j++) v += (0.5 - 0.25 * ((j + k) % 3)) * x[j]; return v; }
         if (degenerate == 3) dims = 1;
